@@ -51,10 +51,27 @@ def _exec_huge(case):
             avg = float(m.expected_degree(per_node=False))
             dims = {int(k): float(v) for k, v in m.dimension_sequence(include_dyadic=True, expected=True).items()}
             pairs = [tuple(sorted(r.choice(N, 2, replace=False).tolist())) for _ in range(300)]
-            pairs += [(0, N - 1), (N - 2, N - 1), (4095, 4096), (0, 4096)]
+            pairs += [(0, N - 1), (N - 2, N - 1)] + ([(4095, 4096), (0, 4096)] if N > 4096 else [])
             lam = np.asarray(m.poisson_params(hye_list_to_binary_incidence(pairs, shape=(N, len(pairs))))).ravel()
         except Exception as e:  # noqa
             raise Violation("C15/closed-form/raised", {"where": f"N={N}", "exception": repr(e)})
+        # the normalisation for sizes in the middle of the range (binomial coefficients far beyond float64)
+        try:
+            mk = HyMMSBM(u=u.copy(), w=w.copy(), max_hye_size=N)
+            for d in (2, 3, N // 4, N // 2, N - 1, N):
+                lk = float(mk.log_kappa(d))
+                want = (math.lgamma(N - 1) - math.lgamma(d - 1) - math.lgamma(N - d + 1)) + math.log(d * (d - 1) / 2)
+                if not math.isfinite(lk) or abs(lk - want) > 1e-8 * max(1.0, abs(want)):
+                    raise Violation("C15/closed-form/log_kappa", {"where": f"N={N}", "d": d, "library": lk, "definition": want})
+            ds = np.array([2, N // 3, N // 2])
+            got = np.asarray(mk.log_kappa(ds), dtype=float)
+            wantv = np.array([(math.lgamma(N - 1) - math.lgamma(int(d) - 1) - math.lgamma(N - int(d) + 1)) + math.log(int(d) * (int(d) - 1) / 2) for d in ds])
+            if got.shape != wantv.shape or not np.all(np.isfinite(got)) or not np.allclose(got, wantv, rtol=1e-8, atol=1e-8):
+                raise Violation("C15/closed-form/log_kappa[array]", {"where": f"N={N}", "sizes": ds.tolist(), "library": short(got.tolist()), "definition": short(wantv.tolist())})
+        except Violation:
+            raise
+        except Exception as e:  # noqa
+            raise Violation("C15/closed-form/raised", {"where": f"N={N} log_kappa", "exception": repr(e)})
         S = u.sum(axis=0)
         uw = u @ w
         want_deg = np.array([float(uw[i] @ (S - u[i])) for i in range(N)])  # kappa_2 = 1
@@ -80,7 +97,7 @@ def _exec_huge(case):
 def generate(seed, tier):
     rng = random.Random(seed)
     if rng.random() < 0.004:
-        return {"seed": seed, "huge": True, "N": rng.choice([4097, 5000, 6000, 8200]), "K": rng.randint(1, 3), "q": 0.0}
+        return {"seed": seed, "huge": True, "N": rng.choice([1100, 2500, 4097, 5000, 6000, 8200]), "K": rng.randint(1, 3), "q": 0.0}
     N = rng.randint(4, 7)
     K = rng.randint(1, 3)
     D = rng.randint(2, min(N, 4))
